@@ -88,6 +88,9 @@ def run(tier, replay):
         extra = [[L("a", "num", 2), L("b", "num", 2), L("a", "num", -1)], [L("b", "num", 0), L("a", "num", 2), L("b", "none")],
                  [L("a", "none"), L("b", "num", 2), L("a", "num", 2)], [L("a", "nan"), L("a", "num", 2), L("b", "num", -1)],
                  [L("a", "num", 2), L("a", "num", 0), L("a", "num", -1)], [L("b", "num", 2), L("a", "num", -1), L("b", "num", -1)]]
+        # three groups with distinct and with tied values (ordering and limit)
+        extra = extra + [[L("a", "num", 2), L("b", "num", 0), L("c", "num", -1)], [L("a", "num", 2), L("b", "num", 2), L("c", "num", 0)],
+                         [L("c", "num", 2), L("a", "num", 0), L("b", "num", 2), L("a", "num", 2)], [L("b", "num", -1), L("c", "num", -1), L("a", "nan")]]
         # magnitudes: sums/minima/maxima at and beyond 10^6, where a partial result is serialised in exponent notation
         extra = extra + [[L("a", "num", 1000000), L("b", "num", 2), L("a", "num", 5)], [L("a", "num", 999999), L("a", "num", 1), L("b", "num", 1234567)],
                          [L("a", "num", -1000000), L("b", "num", 25000000), L("a", "num", -1)]]
@@ -125,7 +128,7 @@ def run(tier, replay):
             if len(c["lines"]) > maxlines:
                 return True
             # lines of one group spread over at least two parts
-            for g in ("a", "b"):
+            for g in ("a", "b", "c"):
                 ps = {c["part"][i] for i, l in enumerate(c["lines"]) if l["g"] == g}
                 if len(ps) >= 2:
                     return True
@@ -140,6 +143,14 @@ def run(tier, replay):
             c["id"] = i
             has_none = any(l["k"] == "none" for l in c["lines"])
             c["format"] = rng.choice(["generickv", "generickv", "default"] + ([] if has_none else ["csv"]))
+            c["ord"], c["ordcol"], c["lim"] = "", "count", -1
+            if c["withCount"] and c["op"] != "last" and rng.random() < (0.9 if len({l["g"] for l in c["lines"]}) >= 3 else 0.4):
+                c["ord"] = rng.choice(["order", "rorder", "order", "rorder", ""])
+                c["lim"] = rng.choice([-1, -1, 0, 1, 2, 3])
+                if c["ord"] == "" and c["lim"] < 0:
+                    c["lim"] = 1
+                opkey_ok = c["op"] != "len" and all(r["n"] > 0 for r in c["central"].values() if r["has"] and c["op"] == "avg")
+                c["ordcol"] = rng.choice(["count", "op"]) if opkey_ok else "count"
         cj, oj = os.path.join(wd, "cases.json"), os.path.join(wd, "out.json")
         json.dump(chosen, open(cj, "w"))
         rc, out = vlib.go_test(wd, "./internal/mapr/server", OV, "TestC05Replay", env={"VERIF_CASES": cj, "VERIF_OUT": oj}, timeout=3300)
@@ -147,6 +158,7 @@ def run(tier, replay):
             raise vlib.Inconclusive("harness failed\n" + out[-2500:])
         results = json.load(open(oj))
         problems = 0
+        order_recs = []
         for c, res in zip(chosen, results):
             rows = res.get("rows") or []
             desc = {"query": res["query"], "lines": c["lines"], "part": c["part"], "accumulate": c["accumulate"], "format": c["format"],
@@ -157,6 +169,24 @@ def run(tier, replay):
                 else:
                     problems += 1
                 continue
+            if c["ord"] or c["lim"] >= 0:
+                # ordering / limit: every row that is output must be the row of its group; which rows and in which order
+                # is judged by TLC (RowsAcceptable) below
+                exp = {g: r for g, r in c["central"].items() if r["has"]}
+                for kind, rws in (("csv", rows), ("table", res.get("table") or [])):
+                    ok = len({r[0] for r in rws if r}) == len(rws) and all(
+                        len(r) == 3 and r[0] in exp and r[1] == str(exp[r[0]]["cnt"]) and
+                        close(r[2], expected_cell(exp[r[0]], c["op"], c["vals"][r[0]], c["lens"][r[0]])) for r in rws)
+                    if not ok:
+                        V.violation("a row of the %s result is not the row of its group" % kind, dict(desc, table=res.get("table")))
+                        break
+                    keys = []
+                    for g, er in exp.items():
+                        num, den = (er["cnt"], 1) if c["ordcol"] == "count" else ((er["x"], er["n"]) if c["op"] == "avg" else (er["x"], 1))
+                        keys.append({"g": g, "num": num, "den": den})
+                    order_recs.append({"id": len(order_recs) + 1, "ord": c["ord"], "lim": c["lim"], "out": [r[0] for r in rws], "keys": keys,
+                                       "_desc": dict(desc, kind=kind, table=res.get("table"))})
+                continue
             if rows_match(c, rows, "central"):
                 continue
             if kf_open and rows_match(c, rows, "impl"):
@@ -165,6 +195,22 @@ def run(tier, replay):
                 V.violation("the final result differs from the central evaluation", desc)
         if problems > len(chosen) // 20:
             raise vlib.Inconclusive("%d cases had harness problems: %s" % (problems, [r["problem"] for r in results if r.get("problem")][:3]))
+        # ordering and limit: TLC checks the Impl of ordering against RowsAcceptable and judges the recorded outputs
+        vlib.write_ndjson(os.path.join(wd, "c05_order.ndjson"), [{k: v for k, v in r.items() if k != "_desc"} for r in order_recs] or
+                          [{"id": 0, "ord": "", "lim": 0, "out": [], "keys": []}])
+        mo_mod = ('---- MODULE GOrder ----\nEXTENDS MaprOrder\nMCOps == {"count"}\nMCExtra == {}\n'
+                  'Init0 == lines = <<[g |-> "a", v |-> [k |-> "none", n |-> 0]]>> /\\ part = <<1>> /\\ withCount = TRUE /\\ op = "count" '
+                  '/\\ accumulate = FALSE /\\ wh = FALSE\nNext0 == UNCHANGED vars\n====\n')
+        mo_cfg = "INIT Init0\nNEXT Next0\nCONSTANTS\n MaxLines = 1\n Ops <- MCOps\n ExtraTables <- MCExtra\n KF_MergeMissingKey = FALSE\n"
+        ro = vlib.tlc(wd, "GOrder", "GOrder.cfg", files={"GOrder.tla": mo_mod, "GOrder.cfg": mo_cfg}, timeout=900, workers=4)
+        if not ro.ok:
+            raise vlib.Inconclusive("TLC MaprOrder: %s %s" % (ro.violated, (ro.error or ro.out)[-1200:]))
+        badorder = vlib.printed_set(ro.out, "BADORDER")
+        for orec in order_recs:
+            if orec["id"] in badorder:
+                V.violation("ordering / limit: the %s rows %s are not an acceptable result for ord='%s' on the %s column, limit %d (RowsAcceptable by TLC)" %
+                            (orec["_desc"]["kind"], orec["out"], orec["ord"], "order", orec["lim"]), dict(orec["_desc"], keys=orec["keys"]))
+        log("ordering/limit: %d recorded outputs judged by TLC, ImplOrderOK holds for all key assignments of 3 groups" % len(order_recs))
         # magnitudes: a partial count/sum beyond 10^6 inside one serialisation interval
         mo = os.path.join(wd, "mag.json")
         nbig = 1000005 if tier == "quick" else 2500003
@@ -178,7 +224,7 @@ def run(tier, replay):
             if g not in got or any(abs(a - b) > 1e-4 * max(1.0, abs(b)) for a, b in zip(got[g], w)):
                 V.violation("magnitude case: group %s is %s, central evaluation gives %s (count,sum,min,max,avg)" % (g, got.get(g), w),
                             {"n": nbig, "rows": mag["rows"], "wire": mag["wire"][:6]})
-        cov = {"states": r.distinct + re_.distinct, "transitions": r.generated + re_.generated,
+        cov = {"ordering_limit_outputs_judged": len(order_recs), "states": r.distinct + re_.distinct, "transitions": r.generated + re_.generated,
                "traces_validated_against_impl": len(chosen) - problems, "evaluations": len(chosen) - problems,
                "distinct_nontrivial": sum(1 for c in chosen if nontrivial(c)),
                "rule": "cases = tables of up to MaxLines lines (2 groups x 5 kinds of field value) x partitions into 3 parts x 7 aggregate "
